@@ -78,6 +78,41 @@ impl Bits {
         let i = self.len - 1;
         self.set(i, v);
     }
+    pub fn pop(&mut self) -> Option<bool> {
+        if self.len == 0 {
+            return None;
+        }
+        let v = self.get(self.len - 1);
+        self.resize(self.len - 1, false);
+        Some(v)
+    }
+    pub fn resize(&mut self, new_len: usize, fill: bool) {
+        let old = self.len;
+        self.words.resize((new_len + 63) / 64, 0);
+        self.len = new_len;
+        if new_len > old {
+            for i in old..new_len {
+                self.set(i, fill);
+            }
+        } else {
+            self.fix_tail();
+        }
+    }
+    /// read `width` bits starting at `offset` (little-endian), reference implementation
+    pub fn read(&self, offset: usize, width: usize) -> u64 {
+        let mut v = 0u64;
+        for k in 0..width {
+            if self.get(offset + k) {
+                v |= 1u64 << k;
+            }
+        }
+        v
+    }
+    pub fn write(&mut self, offset: usize, value: u64, width: usize) {
+        for k in 0..width {
+            self.set(offset + k, (value >> k) & 1 == 1);
+        }
+    }
     pub fn count_ones(&self) -> usize {
         self.words.iter().map(|w| w.count_ones() as usize).sum()
     }
